@@ -387,3 +387,45 @@ def morph(O, A, m, M, T, selected):
         prev_old_end, prev_new_end = e, ns + dur
     newmax = prev_new_end + (M - prev_old_end)  # trailing gap preserved
     return {"class": "IntervalTier", "entries": out, "min": m, "max": newmax}
+
+
+# --------------------------------------------------------------------------------- C04 / C02 (save preparation)
+
+
+def save_prep_interval(O, ents, m, M, lo_ov, hi_ov, blank, L):
+    """C04: with blank filling on, saving changes the annotation only by adding empty-labelled intervals in
+    unlabelled stretches and by absorbing intervals shorter than minimumIntervalLength into a neighbour; a
+    minTimestamp/maxTimestamp override becomes the file's span, and if an entry would fall outside the requested
+    span the save raises instead of writing an inconsistent file; with blank filling off, entries are written
+    verbatim; with the threshold disabled nothing is absorbed.
+    C02: when blank filling is on, each interval tier in the file is an ascending, gap-free, overlap-free
+    partition of the file's [xmin, xmax]."""
+    lo = lo_ov if lo_ov is not None else m
+    hi = hi_ov if hi_ov is not None else M
+    if not blank:
+        return {"xmin": lo, "xmax": hi, "entries": list(ents)}
+    if ents:
+        if O.lt(ents[0][0], lo) or O.gt(ents[-1][1], hi):
+            O.raise_("ParsingError")
+    filled = []
+    cur = lo
+    for s, e, l in ents:
+        if O.lt(cur, s):
+            filled.append((cur, s, ""))
+        filled.append((s, e, l))
+        cur = e
+    if O.lt(cur, hi) or not ents:
+        filled.append((cur, hi, ""))
+    if L is None:
+        return {"xmin": lo, "xmax": hi, "entries": filled}
+    kept = []
+    for s, e, l in filled:
+        if O.lt(e - s, L):  # a sliver: absorbed into the interval before it (or, at the very start, the one after)
+            if kept:
+                ks, _, kl = kept[-1]
+                kept[-1] = (ks, e, kl)
+        else:
+            if not kept and not O.eq(s, lo):
+                s = lo
+            kept.append((s, e, l))
+    return {"xmin": lo, "xmax": hi, "entries": kept}
